@@ -417,7 +417,18 @@ def run_options(r, iface0):
         path = t.file(size)
         data = content(size)
         ext = {"http.response.zerocopysend": {}} if iface0 == "zerocopy" else None
+        # a file that has grown since it was stat'ed (a log being appended to; a stat result the application took earlier and
+        # passes in): the response describes, and sends, the file as it was stat'ed
+        grown = os.path.join(t.dir, "grown.bin")
+        with open(grown, "wb") as f:
+            f.write(data)
+        old_stat = os.stat(grown)
+        with open(grown, "ab") as f:
+            f.write(b"APPENDED-LATER")
+        os.utime(grown, (old_stat.st_atime, old_stat.st_mtime))
         variants = {
+            "grown-since-stat": lambda: m.FileResponse(grown, stat_result=old_stat, chunk_size=4),
+            "grown-since-stat-default-chunk": lambda: m.FileResponse(grown, stat_result=old_stat),
             "latin1-content-type": lambda: m.FileResponse(path, content_type="application/x-donn\xe9es", chunk_size=4),
             "charset-content-type": lambda: m.FileResponse(path, content_type="text/plain; charset=utf-8", chunk_size=3),
             "download-name": lambda: m.FileResponse(path, download_name="r\xe9sum\xe9 final.txt", chunk_size=4),
@@ -429,7 +440,7 @@ def run_options(r, iface0):
             "etag-hook-default-chunk": lambda: Tagged(path),
         }
         headers_menu = [(None, None), ("bytes=2-5", [("fl", 2, 5)]), ("bytes=0-1,5-8", [("fl", 0, 1), ("fl", 5, 8)]), ("bytes=0-1 , 5-8", [("fl", 0, 1), ("fl", 5, 8)]), ("bytes=0-1\t,\t5-8 ,10-", [("fl", 0, 1), ("fl", 5, 8), ("f", 10)]),
-                        ("bytes= 3-4", [("fl", 3, 4)]), ("bytes=-3", [("s", 3)]), ("bytes=30-", [("f", 30)])]
+                        ("bytes= 3-4", [("fl", 3, 4)]), ("bytes=-3", [("s", 3)]), ("bytes=30-", [("f", 30)]), ("bytes=15-", [("f", 15)]), ("bytes=0-0,18-", [("fl", 0, 0), ("f", 18)])]
         for vname, mk in variants.items():
             def go(method, headers):
                 random.seed(12345)
